@@ -236,6 +236,9 @@ class Sym:
                 return mk_cmp(fv[1], self.subj(args[0]), self.subj(args[1]))
             raise PredError(f"unsupported call `{ast.unparse(e)[:60]}` in {self.fn.name}")
         if not isinstance(f, ast.Attribute):
+            fv = self.ev(f, env, assign) if isinstance(f, (ast.IfExp, ast.Call, ast.Subscript)) else None
+            if isinstance(fv, tuple) and fv and fv[0] == "opfn" and len(args) == 2:
+                return mk_cmp(fv[1], self.subj(args[0]), self.subj(args[1]))
             raise PredError(f"unsupported call `{ast.unparse(e)[:60]}`")
         d = dotted(f)
         if d in ("pl.col", "polars.col", "F.col") and args and args[0] == ("datakey",):
